@@ -14,7 +14,19 @@ def tables():
     for v, accs in re.findall(r'\("([^"]*)", \[(.*?)\]\)', m.group(1)):
         env[v] = re.findall(r'"([^"]*)"', accs)
     kv = dict(re.findall(r'\("([^"]*)", "([^"]*)"\)', re.search(r'Definition engine_kind_var.*?:=\s*\[(.*?)\]\.\n', txt, re.S).group(1)))
+    # (variable, accessor) pairs bound to a constant rather than to a method
+    global CONSTS
+    CONSTS = set()
+    mb = re.search(r'Definition engine_env_bind.*?:=\s*\[(.*?)\]\.\n', txt, re.S)
+    if mb:
+        for v, body in re.findall(r'\("([^"]*)", \[(.*?)\]\)', mb.group(1)):
+            for a, kind_, _t in re.findall(r'\("([^"]*)", "([^"]*)", "([^"]*)"\)', body):
+                if kind_ == 'const':
+                    CONSTS.add((v, a))
     return kinds, kv, env
+
+
+CONSTS = set()
 
 
 KITCHEN = '''/** Kitchen sink. @author k */
@@ -74,7 +86,36 @@ def check(pid, tier, seed, t0, st, replay):
             accs = env.get(kv.get(k, ''), [])
             acc = 'getName()' if 'getName' in accs else 'toString()'
             queries.append(('whr:' + k, 'FROM %s AS x WHERE x.%s == x.%s SELECT x, x.toString()' % (k, acc, acc)))
+        # every accessor the engine binds for the kind can be evaluated in WHERE on every entity of the kind
+        # (self-comparison for scalar and object values, len() for lists): the full population must come back
+        for k in sorted(observed):
+            for a in env.get(kv.get(k, ''), []):
+                if a == 'toString':
+                    continue
+                forms_ = ('x.%s == x.%s' % (a, a),) if (kv.get(k, ''), a) in CONSTS else ('x.%s() == x.%s()' % (a, a), 'len(x.%s()) >= 0' % a, 'x.%s() != nil' % a)
+                for fi, form in enumerate(forms_):
+                    queries.append(('acc:%s:%s:%d' % (k, a, fi), 'FROM %s AS x WHERE %s SELECT x' % (k, form)))
         results, _ = qrun.run_queries(proj, queries, work + '/q')
+        # an accessor is usable when at least one of its forms yields the whole population
+        acc_ok = {}
+        for qid, q in queries:
+            if qid.startswith('acc:'):
+                _, k, a, _f = qid.split(':', 3)
+                oc, payload = results.get(qid, ('missing', ''))
+                good = False
+                if oc == 'ok':
+                    try:
+                        rs, rows = qrun.parse_result(payload)
+                        good = len(rs) == observed[k]
+                    except Exception:
+                        good = False
+                acc_ok[(k, a)] = acc_ok.get((k, a), False) or good
+        for (k, a), good in sorted(acc_ok.items()):
+            if not good:
+                res.violations.append(dict(property=pid, what='accessor %s of kind %s cannot be used to filter (no form of a condition on it yields the %d entities)' % (a, k, observed[k]),
+                                           query='FROM %s AS x WHERE x.%s() == x.%s() SELECT x' % (k, a, a), project_files=[f for f, _ in files][:3],
+                                           how='scan a project containing the construct, then run the query with `pathfinder query`'))
+        queries = [(qid, q) for qid, q in queries if not qid.startswith('acc:')]
         evals = 0
         for qid, q in queries:
             k = qid[4:]
